@@ -30,9 +30,13 @@ def _lookup(encoding):
     Only text encodings count: rot13, base64, zlib etc. (and this codec itself)
     are codecs, but no encodings a style sheet can be written in."""
     info = codecs.lookup(encoding)
-    if not getattr(info, '_is_text_encoding', True) or info.name == 'css':
+    if not getattr(info, '_is_text_encoding', True) or info.name in _NO_CHARSETS:
         raise LookupError('not a text encoding: %s' % encoding)
     return info
+
+
+# this codec itself, the codec which always fails and the IDN name manglings
+_NO_CHARSETS = ('css', 'undefined', 'idna', 'punycode')
 
 
 def detectencoding_str(input, final=False):  # noqa: C901
